@@ -379,6 +379,45 @@ __wrap_malloc (size_t n)
   return __real_malloc (n);
 }
 
+/* calloc, posix_memalign and aligned_alloc are not used by the library today; a change that starts
+   to use one of them must not escape the ledger and the fault schedule */
+void *__real_calloc (size_t, size_t);
+void *
+__wrap_calloc (size_t k, size_t m)
+{
+  if (!g_ledger_on || !g_inlib) return __real_calloc (k, m);
+  size_t n = k * m;
+  if (fault_now ()) { ev_add ("A%zu!", n); errno = ENOMEM; return 0; }
+  void *p = __real_calloc (k, m);
+  ev_add ("A%zu", n);
+  if (p) led_add (p, n, 'h', 'L');
+  return p;
+}
+
+int __real_posix_memalign (void **, size_t, size_t);
+int
+__wrap_posix_memalign (void **out, size_t al, size_t n)
+{
+  if (!g_ledger_on || !g_inlib) return __real_posix_memalign (out, al, n);
+  if (fault_now ()) { ev_add ("A%zu!", n); return ENOMEM; }
+  int r = __real_posix_memalign (out, al, n);
+  ev_add ("A%zu", n);
+  if (!r && *out) led_add (*out, n, 'h', 'L');
+  return r;
+}
+
+void *__real_aligned_alloc (size_t, size_t);
+void *
+__wrap_aligned_alloc (size_t al, size_t n)
+{
+  if (!g_ledger_on || !g_inlib) return __real_aligned_alloc (al, n);
+  if (fault_now ()) { ev_add ("A%zu!", n); errno = ENOMEM; return 0; }
+  void *p = __real_aligned_alloc (al, n);
+  ev_add ("A%zu", n);
+  if (p) led_add (p, n, 'h', 'L');
+  return p;
+}
+
 void *
 __wrap_realloc (void *old, size_t n)
 {
@@ -714,20 +753,17 @@ cmd_crypt (int argc, char **argv)
     }
   int full = (cd && objsize >= CD_SIZE);
   uint64_t nonce = canary_nonce++;
-  if (argmode == 'i' && !(full && pl >= 0 && sl >= 0 && pl < 512 && sl < 384))
+  /* argmode: s = separate exact-size buffers; i = phrase and setting inside the object's own fields;
+     p = only the phrase inside (data->input); g = only the setting inside (data->setting) */
+  if (argmode != 's' && !(full && pl >= 0 && sl >= 0 && pl < 512 && sl < 384))
     argmode = 's';
+  int set_in = (argmode == 'i' || argmode == 'g'), phr_in = (argmode == 'i' || argmode == 'p');
   if (full)
     {
-      if (argmode == 'i')
-        {
-          memcpy (cd->setting, setting, (size_t) sl + 1);
-          memcpy (cd->input, phrase, (size_t) pl + 1);
-        }
-      else
-        {
-          canary_fill ((unsigned char *) cd->setting, sizeof cd->setting, nonce);
-          canary_fill ((unsigned char *) cd->input, sizeof cd->input, nonce + 77);
-        }
+      if (set_in) memcpy (cd->setting, setting, (size_t) sl + 1);
+      else canary_fill ((unsigned char *) cd->setting, sizeof cd->setting, nonce);
+      if (phr_in) memcpy (cd->input, phrase, (size_t) pl + 1);
+      else canary_fill ((unsigned char *) cd->input, sizeof cd->input, nonce + 77);
 #ifdef VW_MSAN
       __msan_unpoison (snap, sizeof snap);
       memcpy (snap, cd, sizeof snap);
@@ -739,8 +775,8 @@ cmd_crypt (int argc, char **argv)
   if (scan_on && pl >= 0) needles_for_phrase (pb, (size_t) pl);
 
   cc.entry = entry;
-  cc.phrase = (argmode == 'i') ? cd->input : phrase;
-  cc.setting = (argmode == 'i') ? cd->setting : setting;
+  cc.phrase = phr_in ? cd->input : phrase;
+  cc.setting = set_in ? cd->setting : setting;
   cc.data = cd;
   cc.size = !strcmp (argv[5], "=") ? (int) objsize : atoi (argv[5]);
   cc.ra_data = &s->ra_ptr;
@@ -803,12 +839,12 @@ cmd_crypt (int argc, char **argv)
 #ifdef VW_MSAN
       __msan_unpoison (cd, sizeof *cd);
 #endif
-      if (full == 1 && argmode != 'i')
-        out_printf (" can=%d", canary_check ((unsigned char *) cd->setting, sizeof cd->setting, nonce)
-                    && canary_check ((unsigned char *) cd->input, sizeof cd->input, nonce + 77));
-      else if (full == 1)
-        out_printf (" can=%d", !memcmp (cd->setting, setting, (size_t) sl + 1)
-                    && !memcmp (cd->input, phrase, (size_t) pl + 1));
+      if (full == 1)
+        out_printf (" can=%d",
+                    (set_in ? !memcmp (cd->setting, setting, (size_t) sl + 1)
+                            : canary_check ((unsigned char *) cd->setting, sizeof cd->setting, nonce))
+                    && (phr_in ? !memcmp (cd->input, phrase, (size_t) pl + 1)
+                               : canary_check ((unsigned char *) cd->input, sizeof cd->input, nonce + 77)));
       else
         out_printf (" can=-");
       if (full == 2)
@@ -826,7 +862,7 @@ cmd_crypt (int argc, char **argv)
       if (scan_on && pl >= 8)
         {
           long hits;
-          if (argmode == 'i')
+          if (phr_in)
             hits = scan_region ((unsigned char *) cd, sizeof *cd,
                                 (unsigned char *) cd->input, sizeof cd->input, 0, 0);
           else
